@@ -584,11 +584,23 @@ def _inst_data(inst_id: str) -> dict:
         d["flows"] = [[int(v) for v in r] for r in inst.flows]
         d["dists"] = [[int(v) for v in r] for r in inst.distances]
     elif dom in ("ttp", "ttpmo"):
-        d["dist"] = [[int(v) for v in r] for r in np.asarray(inst)]
-        d.update({"n": int(inst.n_cities), "rounds": int(inst.rounds),
-                  "hs": [int(inst.home_streak_min), int(inst.home_streak_max)],
-                  "as": [int(inst.away_streak_min), int(inst.away_streak_max)],
-                  "sep": [int(inst.separation_min), int(inst.separation_max)]})
+        # the benchmark's documented setting, NOT what the loader reports:
+        # double round robin, home/away streaks of 1..3 games, repeated
+        # pairings at least one game apart (no upper limit); circ* and con*
+        # distances by their defining formulas, the others through the loader
+        nm = inst_id.split(":")[1]
+        n = int("".join(ch for ch in nm if ch.isdigit()))
+        days = (n - 1) * 2
+        if nm.startswith("circ"):
+            dist = [[min(abs(a - b), n - abs(a - b)) for b in range(n)]
+                    for a in range(n)]
+        elif nm.startswith("con"):
+            dist = [[0 if a == b else 1 for b in range(n)] for a in range(n)]
+        else:
+            dist = [[int(v) for v in r] for r in np.asarray(inst)]
+        d["dist"] = dist
+        d.update({"n": n, "rounds": 2, "hs": [1, 3], "as": [1, 3],
+                  "sep": [1, days]})
     elif dom == "instgen":
         sp = inst.solution_space
         d.update({"inst_name": sp.inst_name, "W": int(sp.bin_width),
